@@ -169,6 +169,9 @@ type FaultProgram struct {
 	Wraps []int `json:"wraps,omitempty"` // indices into wrappers, outermost first
 	Pre   int   `json:"pre,omitempty"`   // number of healthy statements before the fault
 	Post  int   `json:"post,omitempty"`
+	// Twice: in a conc placement the faulty child occurs twice in the block (two children of
+	// one block fail); used by C09 only.
+	Twice bool `json:"twice,omitempty"`
 }
 
 func (fp *FaultProgram) spec() *faultSpec { return &faultCatalogue[fp.Fault] }
@@ -251,7 +254,11 @@ func (fp *FaultProgram) Build() (*dsl.Block, interface{}) {
 		case "plain":
 			core = append(core, st)
 		case "conc":
-			core = append(core, &dsl.Stmt{K: dsl.SConc, Kids: []*dsl.Stmt{dsl.Assign(dsl.Var("cz"), "=", i(2)), st, dsl.CallStmt(dsl.Call("tr", i(61)))}})
+			kids := []*dsl.Stmt{dsl.Assign(dsl.Var("cz"), "=", i(2)), st, dsl.CallStmt(dsl.Call("tr", i(61)))}
+			if fp.Twice {
+				kids = append(kids, s.Stmt())
+			}
+			core = append(core, &dsl.Stmt{K: dsl.SConc, Kids: kids})
 		case "for-init":
 			core = append(core, &dsl.Stmt{K: dsl.SFor, Init: st, Cond: dsl.Bin("<", i(0), i(1)), Step: dsl.Assign(dsl.Var("fj"), "=", i(1)), Body: &dsl.Block{Stmts: []*dsl.Stmt{tr(62), {K: dsl.SBreak}}}})
 		case "for-step":
@@ -293,13 +300,25 @@ func (fp *FaultProgram) Build() (*dsl.Block, interface{}) {
 		case "method-arg":
 			core = append(core, dsl.CallStmt(dsl.Call("O.Add", e)))
 		case "conc-assign":
-			core = append(core, &dsl.Stmt{K: dsl.SConc, Kids: []*dsl.Stmt{dsl.Assign(dsl.Var("cz"), "=", i(2)), dsl.Assign(dsl.Var("z"), "=", e), dsl.CallStmt(dsl.Call("tr", i(58)))}})
+			kids := []*dsl.Stmt{dsl.Assign(dsl.Var("cz"), "=", i(2)), dsl.Assign(dsl.Var("z"), "=", e), dsl.CallStmt(dsl.Call("tr", i(58)))}
+			if fp.Twice {
+				kids = append(kids, dsl.Assign(dsl.Var("zb"), "=", s.Expr()))
+			}
+			core = append(core, &dsl.Stmt{K: dsl.SConc, Kids: kids})
 		case "conc-call-arg":
-			core = append(core, &dsl.Stmt{K: dsl.SConc, Kids: []*dsl.Stmt{dsl.CallStmt(dsl.Call("ok", e)), dsl.Assign(dsl.Var("cz"), "=", i(2))}})
+			kids := []*dsl.Stmt{dsl.CallStmt(dsl.Call("ok", e)), dsl.Assign(dsl.Var("cz"), "=", i(2))}
+			if fp.Twice {
+				kids = append(kids, dsl.CallStmt(dsl.Call("ok", s.Expr())))
+			}
+			core = append(core, &dsl.Stmt{K: dsl.SConc, Kids: kids})
 		case "stmt-call":
 			core = append(core, dsl.CallStmt(e))
 		case "conc-stmt-call":
-			core = append(core, &dsl.Stmt{K: dsl.SConc, Kids: []*dsl.Stmt{dsl.Assign(dsl.Var("cz"), "=", i(2)), dsl.CallStmt(e), dsl.CallStmt(dsl.Call("tr", i(59)))}})
+			kids := []*dsl.Stmt{dsl.Assign(dsl.Var("cz"), "=", i(2)), dsl.CallStmt(e), dsl.CallStmt(dsl.Call("tr", i(59)))}
+			if fp.Twice {
+				kids = append(kids, dsl.CallStmt(s.Expr()))
+			}
+			core = append(core, &dsl.Stmt{K: dsl.SConc, Kids: kids})
 		}
 	}
 	// innermost block
